@@ -7,6 +7,9 @@ CLAIMED = {
  "C03": ("deterministic simulation: scripted peers interleave bind/unbind/subscribe/write with conn.drop, conn.restart, peer.entity_remove and net.dup faults; reference binding registry decides per write whether it is authorised; data snapshots, outbound traces and events are the observables",
          "Seeded exploration of interleaved histories of bind, unbind, subscribe, write (from the bound feature, from another feature of the same peer, to read-only functions), disconnect/reconnect and entity removal by 2-3 peers with overlapping numbering against 2-6 local server features; for each delivered write the oracle requires, when unauthorised, unchanged data, no notification, no data-change event and exactly one error result, and when authorised, the data applied, one notify per current subscriber, one event and a success result iff ack.",
          "Sampling; trusted: instrumenter, synctest, registry model (A.5). Writes whose handling overlaps a registry change on their key, or other updates of the same function, are only checked for <=1 result.", "5/C03"),
+ "C10": ("deterministic simulation with conn.drop / conn.restart / peer.entity_remove faults placed by an independent fault task while other peers' messages are being handled; ownership-partition oracle over registries (porcupine, with removal operations), client-side references, pending approvals, events and stale writes",
+         "Seeded exploration of histories in which 2-3 peers with overlapping numbering subscribe, bind, have writes pending approval (silent application) and are referenced by local client features, while connections are removed (by the peer's own script and by an independent fault task, also mid-handling of other peers' messages), re-established, and entities are announced as removed. After the drain: registry histories including removals are linearizable and every peer's final listing matches, nothing of a removed peer is left, removal events match, removed devices are not resolvable, no pending approval or client-side reference of the removed owner survives while the others keep theirs, nothing is written to a removed connection by an operation (or approval timer) that began after the removal returned, and every connected peer still gets its discovery read answered.",
+         "Sampling; trusted: instrumenter, synctest fake clock (approval timers are fired in the drain), porcupine, registry model (A.5).", "5/C10"),
  "C07": ("deterministic simulation: seeded schedules over concurrent GetOrAddFeature/NextFeatureId tasks + discovery replies vs. a model of the local tree; identity/uniqueness oracle",
          "Seeded exploration of interleavings at lock/spawn/atomic granularity (statement granularity in entity_local.go in the thorough tier) of concurrent feature creation, and of histories of entity/feature additions and removals interleaved with discovery reads from subscribed and unsubscribed scripted peers; every discovery reply and every add/remove notification is compared with a model built from the harness's own calls.",
          "Sampling of schedules and histories; trusted: instrumenter rewrites, synctest, the local-tree model in harness/sc_c07*.go.", "5/C07"),
